@@ -65,6 +65,17 @@ def main():
         discharged, aud_problems = lib.audit(prop, mod.MODULES + list(getattr(mod, "EXTRA_MODULES", [])), theorems)
         problems += aud_problems
 
+    # source drift: a changed function body deepens this run's exploration (never a verdict by itself)
+    try:
+        import drift
+        ctx.drift = drift.drifted(prop, getattr(mod, "SOURCES", {})) if hasattr(mod, "SOURCES") else []
+    except Exception as e:  # noqa: BLE001
+        ctx.drift = []
+        ctx.note("drift fingerprint unavailable: %r" % (e,))
+    if ctx.drift and not ctx.thorough:
+        ctx.thorough = True
+        ctx.note("source drift in %s: correspondence and oracle run at thorough bounds" % ", ".join(ctx.drift[:6]))
+
     # correspondence + oracle at this tier's bounds
     mod.check(ctx)
 
@@ -128,6 +139,7 @@ def main():
             "traces_validated_against_impl": sum(t["compared"] for t in ctx.ties.values()),
             "correspondence": ctx.ties, "distribution": dict(ctx.dist.most_common(40)),
             "exhaustive_enumerations": ctx.exhaustive, "escalated_search": ctx.escalated,
+            "source_drift": getattr(ctx, "drift", []),
             "known_findings_reproduced": sorted({v["footprint"] for v in ctx.violations if v["footprint"] in open_ids}),
             "notes": ctx.notes,
         },
